@@ -1123,6 +1123,10 @@ class Interp:
                             return o[k2]
                     raise PyRaise("KeyError", "symbolic key")
                 raise Unsupported(f"symbolic index into {type(o).__name__}")
+        if isinstance(idx, tuple) and any(isinstance(x, np.ndarray) and x.dtype == object for x in idx):
+            # a[..., mask] / a[:, mask] with a boolean mask of symbolic entries: every entry is decided (forks), then numpy indexes
+            idx = tuple(np.array([self.truth(e) if is_sym(e) else bool(e) for e in x.tolist()], dtype=bool)
+                        if (isinstance(x, np.ndarray) and x.dtype == object and x.ndim == 1) else x for x in idx)
         if isinstance(idx, tuple) and any(is_sym(x) for x in idx):
             raise Unsupported("symbolic multi-index")
         if isinstance(idx, np.ndarray) and idx.dtype == object:
